@@ -20,7 +20,9 @@ EXTENDS EncV1FormatContract, TLC
 CONSTANTS SS,          \* segment size of the model
           Lens,        \* plaintext lengths
           AliasFix,    \* TRUE: the WrapKeyFn receives the resolved algorithm (the code); FALSE: the alias as given
-          OmitFix      \* TRUE: OmitKeyName wins over DecryptionKeyName (the code); FALSE: it is ignored
+          OmitFix,     \* TRUE: OmitKeyName wins over DecryptionKeyName (the code); FALSE: it is ignored
+          HdrLimit     \* "ok": a header of more than hmax bytes is refused (filekey.go:109); "off-by-one": hmax bytes are refused too;
+                       \* "none": never refused (the oversized header is written and Decrypt cannot read it back)
 
 VARIABLES o, ov, stage, doc, c
 vars == <<o, ov, stage, doc, c>>
@@ -29,10 +31,15 @@ RECURSIVE Feed(_, _)
 Feed(cc, evs) == IF evs = <<>> THEN cc ELSE Feed(CNext(cc, Head(evs)), Tail(evs))
 
 HKDF(ikm, salt, info) == <<"hkdf", ikm, salt, info>>
+(* symbolic header size: a fixed part plus the key name when the manifest carries one *)
+HMax == 40
+HBase == 20
+HdrLen(k) == HBase + (IF k = "" THEN 0 ELSE o.klen)
 
 Init ==
   /\ o \in [len : Lens, S : {SS}, tag : {1}, cipher : {"", "AES-GCM", "CHACHA20-POLY1305"}, alg : AllAlgs,
-            keyName : {"k1"}, decKeyName : {"", "k2"}, omit : BOOLEAN, producer : {"real"}]
+            keyName : {"k1"}, decKeyName : {"", "k2"}, omit : BOOLEAN, producer : {"real"}, hmax : {HMax},
+            klen : {1, HMax - HBase - 1, HMax - HBase, HMax - HBase + 1}]      \* length of the key name that goes into the manifest
   /\ ov \in {"", "k3"}
   /\ stage = "encrypt" /\ doc = <<>>
   /\ c = CReset(o)
@@ -47,9 +54,16 @@ Encrypt ==
          segs == [j \in 1..NumChunks(o.len, SS) |->
                     <<"seal", HKDF("FK", "NP", "payload"), <<"NP", j - 1, j = NumChunks(o.len, SS)>>,
                       (j - 1) * SS, Min(o.len, j * SS)>>]
-     IN /\ doc' = [scheme |-> SchemeLine, mf |-> mf, mac |-> <<"hmac", HKDF("FK", "", "header"), <<SchemeLine, mf>>>>, segs |-> segs]
+         refuse == CASE HdrLimit = "ok" -> HdrLen(k) > HMax [] HdrLimit = "off-by-one" -> HdrLen(k) >= HMax [] OTHER -> FALSE
+     IN IF refuse
+        THEN /\ doc' = <<>> /\ stage' = "done"
+             /\ c' = Feed(c, <<[ev |-> "wrap", alg |-> seen, keyName |-> o.keyName, fkLen |-> 32],
+                               [ev |-> "encfail", stage |-> "call", hdrWouldBe |-> HdrLen(k)], [ev |-> "end"]>>)
+        ELSE
+        /\ stage' = "decompose"
+        /\ doc' = [scheme |-> SchemeLine, mf |-> mf, mac |-> <<"hmac", HKDF("FK", "", "header"), <<SchemeLine, mf>>>>, segs |-> segs]
         /\ c' = Feed(c, <<[ev |-> "wrap", alg |-> seen, keyName |-> o.keyName, fkLen |-> 32]>>)
-  /\ stage' = "decompose" /\ UNCHANGED <<o, ov>>
+  /\ UNCHANGED <<o, ov>>
 
 UnwrapTerm(wfk, alg) == IF wfk[1] = "wrap" /\ wfk[2] = alg THEN wfk[3] ELSE "garbage"
 
@@ -76,7 +90,7 @@ Decrypt ==
   /\ LET name == IF ov # "" THEN ov ELSE doc.mf.k
          alg  == AlgName(doc.mf.kw)
          fk   == UnwrapTerm(doc.mf.wfk, alg)
-         ok   == doc.mac = <<"hmac", HKDF(fk, "", "header"), <<doc.scheme, doc.mf>>>>
+         ok   == doc.mac = <<"hmac", HKDF(fk, "", "header"), <<doc.scheme, doc.mf>>>> /\ HdrLen(doc.mf.k) <= HMax   \* readHeader reads one segment at most
      IN c' = Feed(c, IF name = "" THEN <<[ev |-> "dec", by |-> "real", override |-> ov, n |-> 0, equal |-> FALSE, term |-> "decrypt-err"], [ev |-> "end"]>>
                      ELSE <<[ev |-> "unwrap", override |-> ov, alg |-> alg, keyName |-> name],
                             [ev |-> "dec", by |-> "real", override |-> ov, n |-> IF ok THEN o.len ELSE 0, equal |-> ok,
@@ -88,5 +102,5 @@ Next == Encrypt \/ Decompose \/ Decrypt
 Spec == Init /\ [][Next]_vars
 NotBad == ~IsBad(c)
 (* wrap and unwrap see the same algorithm, whatever spelling the caller used *)
-WrapUnwrapAgree == stage \in {"decompose", "decrypt", "done"} => doc.mf.wfk[2] = AlgName(doc.mf.kw)
+WrapUnwrapAgree == (stage \in {"decompose", "decrypt", "done"} /\ doc # <<>>) => doc.mf.wfk[2] = AlgName(doc.mf.kw)
 =============================================================================
